@@ -139,6 +139,15 @@ func verifHandle(r *verifReq) (resp map[string]any) {
 	case "ipath":
 		verifSetCfg(r)
 		resp["out"] = verifSetPkgs(r).obfuscatedImportPath()
+	case "litobf":
+		// In = plaintext (hex), Name = obfuscator index, Salt = generator seed (decimal in S)
+		var idx int
+		fmt.Sscan(r.Name, &idx)
+		var seed int64
+		fmt.Sscan(r.S, &seed)
+		resp["case"] = literals.VerifObfuscate(idx, seed, verifHex(r.In))
+	case "litconsts":
+		resp["consts"] = literals.VerifConsts()
 	case "seedset":
 		var f seedFlag
 		// seedFlag.Set prints a warning to stderr for long seeds; harmless here.
